@@ -29,6 +29,7 @@ from mc import grammar as G
 
 ID = 'C16'
 LEVEL = 'model_checking'
+FULL_IN_QUICK = True     # the complete space costs seconds: quick == thorough
 MODES = ('pkg', 'dir')
 MAXINT = 2147483647
 
